@@ -287,3 +287,144 @@ func printStructFindings(title string, fs []structFinding) {
 		fmt.Printf("  %-5v %s  %s  [%s]\n", f.ok, f.name, f.pos, f.src)
 	}
 }
+
+// stackCoverScan (C05): a stack overflow is fatal to a Go process (it cannot be
+// recovered), so unbounded recursion on the input is a crash, not an error.
+// Every function of the listed packages that lies on a cycle of the static
+// call graph (direct calls, deferred calls and closures it creates; goroutine
+// starts are not stack growth) must carry a `stackbound` tuple. The `stack`
+// obligations at the call sites then make the tuple decrease along every edge
+// of every cycle, and its components are bounded naturals, so the depth of
+// the recursion is bounded by a constant. Calls through function values and
+// interfaces are not followed (the lexer's state functions are driven by a
+// loop, not by recursion): that is recorded as an assumption.
+func (p *Prog) stackCoverScan(pkgSuffixes []string) []structFinding {
+	var keys []string
+	for k := range p.funcs {
+		keys = append(keys, k)
+	}
+	sort.Strings(keys)
+	var nodes []*ssa.Function
+	idx := map[*ssa.Function]int{}
+	for _, k := range keys {
+		fn := p.funcs[k]
+		if !p.inRepo(fn) || fn.Blocks == nil || fn.Synthetic != "" {
+			continue
+		}
+		pk := fn.Pkg
+		for q := fn; pk == nil && q.Parent() != nil; q = q.Parent() {
+			pk = q.Parent().Pkg
+		}
+		if pk == nil {
+			continue
+		}
+		match := false
+		for _, s := range pkgSuffixes {
+			if pk.Pkg.Path() == repoModule+s {
+				match = true
+			}
+		}
+		if !match {
+			continue
+		}
+		idx[fn] = len(nodes)
+		nodes = append(nodes, fn)
+	}
+	adj := make([][]int, len(nodes))
+	for i, fn := range nodes {
+		seen := map[int]bool{}
+		add := func(g *ssa.Function) {
+			if g == nil {
+				return
+			}
+			if j, ok := idx[g]; ok && !seen[j] {
+				seen[j] = true
+				adj[i] = append(adj[i], j)
+			}
+		}
+		for _, b := range fn.Blocks {
+			for _, ins := range b.Instrs {
+				switch x := ins.(type) {
+				case *ssa.Call:
+					add(x.Call.StaticCallee())
+				case *ssa.Defer:
+					add(x.Call.StaticCallee())
+				case *ssa.MakeClosure:
+					if g, ok := x.Fn.(*ssa.Function); ok {
+						add(g)
+					}
+				}
+			}
+		}
+	}
+	// Tarjan's strongly connected components
+	n := len(nodes)
+	index, low, comp := make([]int, n), make([]int, n), make([]int, n)
+	on := make([]bool, n)
+	for i := range index {
+		index[i], comp[i] = -1, -1
+	}
+	var stack []int
+	next, ncomp := 0, 0
+	size := map[int]int{}
+	var strong func(v int)
+	strong = func(v int) {
+		index[v], low[v] = next, next
+		next++
+		stack = append(stack, v)
+		on[v] = true
+		for _, w := range adj[v] {
+			if index[w] < 0 {
+				strong(w)
+				if low[w] < low[v] {
+					low[v] = low[w]
+				}
+			} else if on[w] && index[w] < low[v] {
+				low[v] = index[w]
+			}
+		}
+		if low[v] == index[v] {
+			for {
+				w := stack[len(stack)-1]
+				stack = stack[:len(stack)-1]
+				on[w] = false
+				comp[w] = ncomp
+				size[ncomp]++
+				if w == v {
+					break
+				}
+			}
+			ncomp++
+		}
+	}
+	for v := 0; v < n; v++ {
+		if index[v] < 0 {
+			strong(v)
+		}
+	}
+	var out []structFinding
+	for i, fn := range nodes {
+		self := false
+		for _, j := range adj[i] {
+			if j == i {
+				self = true
+			}
+		}
+		if size[comp[i]] < 2 && !self {
+			continue
+		}
+		c := p.specs.Contracts[p.contractKey(fn)]
+		ok := c != nil && len(c.Stack) > 0
+		src := "the function lies on a cycle of the static call graph: it must carry a stackbound tuple, so that the stack obligations at its calls bound the depth of the recursion"
+		if c != nil && !ok {
+			for _, note := range c.Notes {
+				if strings.HasPrefix(note, "stackbound:") {
+					ok = true
+					src = "ASSUMED, not proved: recursive function without a stackbound tuple; recorded reason: " + strings.TrimSpace(strings.TrimPrefix(note, "stackbound:"))
+				}
+			}
+		}
+		out = append(out, structFinding{name: p.fnDisplay(fn) + "#stack.covered", pos: p.fset.Position(fn.Pos()).String(), src: src, ok: ok})
+	}
+	return out
+}
